@@ -233,4 +233,60 @@ theorem digitsSplitC_eq (str : Bytes) :
   simp only [List.drop_zero, take_takeWhile_length] at e1
   simp only [Option.bind_eq_bind, e1, Option.bind_some, e2, Option.pure_def]
 
+theorem parseAnswersAuxC_eq (limit n : Nat) : ∀ (fuel : Nat) (str : Bytes) (i : Nat) (acc : List (UInt8 × Int)),
+    parseAnswersAuxC limit n fuel str i acc = some (parseAnswersAux limit n fuel str i acc) := by
+  intro fuel
+  induction fuel with
+  | zero => intro str i acc; rfl
+  | succ fuel ih =>
+    intro str i acc
+    cases str with
+    | nil => simp [parseAnswersAuxC, parseAnswersAux]
+    | cons c rest =>
+      simp only [parseAnswersAuxC, parseAnswersAux, List.length_cons, Nat.add_one_ne_zero, if_false, headTailC_eq,
+        digitsSplitC_eq]
+      by_cases hi : i ≥ n
+      · simp [hi]
+      · simp only [hi, if_false]
+        split
+        · exact ih _ _ _
+        · split
+          · exact ih _ _ _
+          · split
+            · exact ih _ _ _
+            · split
+              · split
+                · rfl
+                · exact ih _ _ _
+              · rfl
+
+/-- **parseProposalAnswer never panics** (for ALL reply lines). -/
+theorem parseProposalAnswerC_eq (limit : Nat) (reply : Bytes) (n : Nat) :
+    parseProposalAnswerC limit reply n = some (parseProposalAnswer limit reply n) := by
+  unfold parseProposalAnswerC parseProposalAnswer
+  exact parseAnswersAuxC_eq _ _ _ _ _ _
+
+/-- **parseProposal never panics** on lines of length ≥ 2 (the caller's guard). -/
+theorem parseProposalC_eq (line : Bytes) (h : 2 ≤ line.length) : parseProposalC line = some (parseProposal line) := by
+  unfold parseProposalC parseProposal
+  have e1 := at?_ok line 1 (by omega)
+  rw [cast1] at e1
+  simp only [e1, proposalFieldsC_eq]
+  split
+  · rfl
+  · split
+    · by_cases h4 : line.length < 4
+      · simp [h4]
+      · simp only [h4, if_false]
+        split <;> (try rfl)
+        split <;> (try rfl)
+        split <;> (try rfl)
+        split <;> rfl
+    · rfl
+
+theorem parseFWC_eq (line : Bytes) : parseFWC line = some (parseFW line) := by
+  unfold parseFWC parseFW
+  rw [fwFieldC_eq]
+  by_cases h : fwPrefix.isPrefixOf line = true <;> simp [h]
+
 end Wl2k.B2F
